@@ -48,16 +48,24 @@ func checkFanout(c *Ctx, cfg fanoutCfg) {
 		r.Explanation = "Decides structural necessary conditions of C11 on events/broadcaster: (M1) eventChs/currentID only under Broadcaster.lock and the whole fan-out loop of Broadcast runs in one critical section (necessary for one common order); (M2) every send into a subscriber buffer under the lock selects on a channel the forwarder closes before taking the lock; (M3) closeCh can be closed without the lock a blocked Broadcast holds; (M4) forwarders tracked, shutdown case in every wait, deregistration under the lock on every exit, Close waits for them; (M5) Broadcast delivers its argument to every entry of eventChs and sends nothing once closed; forwarders pass on exactly what they received. NOT decided: exactly-once and common order as runtime facts over all histories."
 	}
 	r.Assumptions = append(r.Assumptions, "type-based lock and channel identity: all subscribers' buffers are one abstract channel", "subscriber contexts and caller-owned channels can always fire/are drained by their owners")
-	r.Rule(pre+".M1-guard", "eventChs/currentID only under the component lock", 4)
+	r.Rule(pre+".M1-guard", "eventChs/currentID only under the component lock", 3)
+	r.Rule(pre+".M6-unique-id", "subscriber ids come from a counter that only grows, incremented in the critical section that registers the subscriber", 1)
+	if cfg.Prop == "C10" {
+		r.Rule("C10.Q2-atomic-exit", "queue processor: no unlock between 'queue empty' and release of the running token (shared with C06)", 2)
+		r.Rule("C10.Q3-execute", "queue processor: Pop in the critical section that re-checked the head (shared with C06)", 2)
+		r.Rule("C10.Q6-enqueue", "queue processor: Enqueue replaces by key and always calls process() (shared with C06)", 3)
+		r.Rule("C10.Q5-not-early", "queue processor: execute only when due (shared with C06)", 2)
+	}
 	r.Rule(pre+".M2-departure-release", "sends into subscriber buffers under the lock select on a channel closed by the departing forwarder before it takes the lock", 1)
 	r.Rule(pre+".M3-close-escape", "closeCh can be closed without the lock held by a blocked fan-out and without waiting for it", 1)
 	r.Rule(pre+".M4-forwarders", "forwarders tracked by the wait group, with shutdown cases, deregistering under the lock; Close waits", 5)
 	r.Rule(pre+".M5-delivery", "the value is offered to every subscriber entry; nothing sent once closed", 2)
 
-	CheckGuardedBy(p, e, r, pre+".M1-guard", []GuardSpec{
-		{Field: FieldID{pkg + "." + cfg.Type, "eventChs"}, Lock: lockID},
-		{Field: FieldID{pkg + "." + cfg.Type, "currentID"}, Lock: lockID},
-	})
+	guards := []GuardSpec{{Field: FieldID{pkg + "." + cfg.Type, "eventChs"}, Lock: lockID}}
+	if c18HasField(structOf(p.Named(cfg.Rel, cfg.Type)), "currentID") {
+		guards = append(guards, GuardSpec{Field: FieldID{pkg + "." + cfg.Type, "currentID"}, Lock: lockID})
+	}
+	CheckGuardedBy(p, e, r, pre+".M1-guard", guards)
 
 	sub := p.Func(cfg.Rel, cfg.Subscribe)
 	fan := p.Func(cfg.Rel, cfg.Fanout)
@@ -222,7 +230,9 @@ func checkFanout(c *Ctx, cfg fanoutCfg) {
 	c10Delivery(c, cfg, fan, pkg, lockID, bufCh)
 	if cfg.Prop == "C10" {
 		c10Batch(c, pkg)
+		c10QueueRules(c)
 	}
+	c10UniqueID(c, cfg, sub, pkg, lockID)
 	c10Forward(c, cfg, fwd, sub, entryFields)
 }
 
@@ -427,4 +437,89 @@ func endsInPanic(b *ssa.BasicBlock) bool {
 	}
 	_, ok := b.Instrs[len(b.Instrs)-1].(*ssa.Panic)
 	return ok
+}
+
+// c10QueueRules runs the queue.Processor rules of C06 that the batcher's
+// delivery guarantee rests on, under C10 rule ids.
+func c10QueueRules(c *Ctx) {
+	old := c06Prefix
+	c06Prefix = "C10."
+	defer func() { c06Prefix = old }()
+	q := c.P.ModPath + "/events/queue"
+	lockID := q + ".Processor.lock"
+	loop := c.P.Func("events/queue", "Processor.processLoop")
+	c06AtomicExit(c, loop, lockID, "field:"+q+".Processor.processorRunningCh")
+	c06Execute(c, lockID)
+	c06Enqueue(c, lockID)
+	c06NotEarly(c, loop)
+}
+
+// c10UniqueID: the id stored in a subscriber entry is the value of a counter
+// field of the component that is incremented (by a positive constant) in the
+// same function under the lock and never assigned otherwise; the
+// deregistration compares entries with that id.
+func c10UniqueID(c *Ctx, cfg fanoutCfg, sub *ssa.Function, pkg, lockID string) {
+	r, p, e := c.R, c.P, c.Locks()
+	construct := cfg.Rel + "." + cfg.Subscribe + " subscriber id"
+	var idStore *ssa.Store
+	allInstrs(sub, func(in ssa.Instruction) {
+		if st, ok := in.(*ssa.Store); ok {
+			if fa, ok := st.Addr.(*ssa.FieldAddr); ok && fieldIDOfAddr(fa).Type == pkg+"."+cfg.Entry && fieldIDOfAddr(fa).Field == "id" {
+				idStore = st
+			}
+		}
+	})
+	if idStore == nil {
+		r.Violation(cfg.Prop+".M6-unique-id", construct, p.Pos(sub.Pos()), "subscriber entries no longer carry an id: a departing forwarder cannot identify its own entry")
+		return
+	}
+	// trace the stored value to a load of a component field (through a local cell)
+	src := idStore.Val
+	for i := 0; i < 4; i++ {
+		if u, ok := src.(*ssa.UnOp); ok && u.Op == token.MUL {
+			if cell := cellOf(u.X); cell != nil {
+				var only ssa.Value
+				n := 0
+				for _, rr := range refs(cell) {
+					if st, ok := rr.(*ssa.Store); ok && st.Addr == ssa.Value(cell) {
+						only, n = st.Val, n+1
+					}
+				}
+				if n == 1 {
+					src = only
+					continue
+				}
+			}
+		}
+		break
+	}
+	id, _, ok := fieldOfValue(src)
+	why := ""
+	if !ok || id.Type != pkg+"."+cfg.Type {
+		why = "the subscriber id is not taken from a counter field of the " + cfg.Type + " (e.g. len(eventChs), which repeats after a departure): a newcomer can get the id of a live subscriber, and when it leaves its forwarder removes the wrong entry — that subscriber stays subscribed but never receives another value"
+	} else {
+		// every store to that field (outside constructors): field = field + positive const, under the lock
+		inc := false
+		for _, fn := range p.FuncsOfPkg(cfg.Rel) {
+			allInstrs(fn, func(in ssa.Instruction) {
+				st, ok := in.(*ssa.Store)
+				if !ok {
+					return
+				}
+				fa, ok := st.Addr.(*ssa.FieldAddr)
+				if !ok || fieldIDOfAddr(fa) != id || isFreshBase(fa.X) {
+					return
+				}
+				if refDelta(st, id) == 1 && e.At(st)[lockID] == ModeW && fn == sub {
+					inc = true
+				} else {
+					why = "the id counter " + id.String() + " is assigned at " + p.Pos(st.Pos()) + " other than by +1 under the lock in " + cfg.Subscribe + ": ids can repeat"
+				}
+			})
+		}
+		if !inc && why == "" {
+			why = "the id counter " + id.String() + " is not incremented when a subscriber registers: all subscribers share one id"
+		}
+	}
+	r.Check(why == "", cfg.Prop+".M6-unique-id", construct, p.Pos(idStore.Pos()), "ids come from a monotonically increasing counter", why)
 }
